@@ -103,6 +103,8 @@ func cmdCheck(args []string) {
 	solverTime := 0.0
 	nObl, nDis := 0, 0
 	nCover, nCoverOK := 0, 0
+	nReplays, nReplayed := 0, 0
+	_ = nReplayed
 	var outside []string
 	var notes []string
 	var funcs []string
@@ -165,7 +167,15 @@ func cmdCheck(args []string) {
 			continue
 		}
 		samples = append(samples, sm)
-		violations = append(violations, writeReplay(replayDir, *prop, or, ""))
+		if nReplays < 4 && replayableKind(or.O.Kind) {
+			nReplays++
+			ro := L.Engine.tryReplay(or, or.Part, *repo, replayDir)
+			or.ReplayNote, or.ReplayFile, or.Replayed = ro.Note, ro.TestFile, ro.Confirmed
+			if ro.Confirmed {
+				nReplayed++
+			}
+		}
+		violations = append(violations, writeReplay(replayDir, *prop, or, or.ReplayNote))
 	}
 	// a function that left the subset is a failed (undecided) obligation of its own
 	for _, fr := range frs {
@@ -310,8 +320,11 @@ func writeReplay(dir, prop string, or *OblResult, note string) string {
 	fmt.Fprintf(&sb, "smt: %s\nsolver output:\n%s\n", or.File, or.R.Output)
 	os.WriteFile(p, []byte(sb.String()), 0o644)
 	suffix := ""
-	if or.R.Status != "sat" || !or.Replayed {
+	if !or.Replayed {
 		suffix = " no-failing-input-found"
+	} else if or.ReplayFile != "" {
+		// the replay is the generated test; the text file next to it carries the solver output
+		p = or.ReplayFile
 	}
 	return fmt.Sprintf("VIOLATION property=%s replay=%s obligation=%s solver=%s%s", prop, p, or.O.Name, or.R.Status, suffix)
 }
